@@ -8,6 +8,7 @@ import Verif.Lemmas.SkipBRInst
 import Verif.Lemmas.SkipBRBytes
 import Verif.Lemmas.SkipTplBufiox
 import Verif.Lemmas.SkipTplReader
+import Verif.Lemmas.SkipBenign
 namespace Verif.C02
 
 /-- For every well-formed encoded value `v` of any type (nesting ≤ 64, i.e. up to 63 container
@@ -129,11 +130,20 @@ theorem readerDec_exact (src : Src) (v rest : Bytes) (t : UInt8)
   obtain ⟨src', hx, hrem, hd'⟩ := h2
   exact ⟨src', by simpa using hx, by simpa using hrem, hd'⟩
 
-/-- C04's `Steady` scripts deliver (so every fragmentation admitted for the buffered reader is
-    admitted for the plain reader too) -/
+/-- C04's `Steady` scripts deliver (so every fragmentation allowed for the buffered reader is
+    allowed for the plain reader too) -/
 theorem steady_delivers (script : List Resp) (slen z : Nat)
     (h : Steady Facts.maxConsecutiveEmptyReads script slen z = true) : Delivers script slen = true :=
   Verif.steady_delivers _ script slen z h
+
+/-- TIE to the Tie-B verdict: the liveness predicate the skip driver uses to demand success on valid
+    values (`benign`, lean/Drv/Skip.lean) implies the hypotheses of the theorems above — `Steady` for
+    the buffered reader and `Delivers` for the plain reader.  So `bad:C02:rejected-valid` never
+    demands more than is proved of the model. -/
+theorem verdict_live_covered (s : Src) (h : benign s = true) :
+    Steady Facts.maxConsecutiveEmptyReads s.script s.stream.length 0 = true ∧
+    Delivers s.script s.stream.length = true :=
+  ⟨benign_steady s h, benign_delivers s h⟩
 
 /-- the io.EOF-with-final-data clause, spelled out: the value is the whole stream and its last byte
     arrives together with io.EOF — the decoder returns the value, not io.EOF (defect F9) -/
@@ -155,6 +165,7 @@ def exScript : List Resp :=
 
 example : Steady Facts.maxConsecutiveEmptyReads exScript 17 0 = true := by decide
 example : Delivers exScript 17 = true := by decide
+example : benign ⟨[8, 11, 0,0,0,1, 0,0,0,7, 0,0,0,1, 65] ++ [1, 2], exScript⟩ = true := by decide
 
 example : ∃ r', skipBR TT.MAP (Rd.newDefault ⟨[8, 11, 0,0,0,1, 0,0,0,7, 0,0,0,1, 65] ++ [1, 2], exScript⟩)
     = .ok ((), r') ∧ r'.remaining = [1, 2] ∧ r'.readLen = 15 :=
